@@ -41,7 +41,7 @@ def run_layouts(task):
         opts, k = {"only": only, "styles": layout.STYLES_FOCUS, "case": False, "indents": False}, (2 if tier == "quick" else 3)
     else:
         prog = corpus.corpus()[pid[2:]]
-        opts, k = {"styles": layout.STYLES_QUICK}, 1
+        opts, k = {"styles": layout.STYLES_QUICK, "case": False}, 1
     std = G.prog_std(prog)
     n = 0
     stats = {}
